@@ -63,7 +63,7 @@ func H_C04_status() {
 	cert := rt.Havoc[*x509.Certificate]("cert")
 	issuer := rt.Havoc[*x509.Certificate]("issuer")
 	l1bCert, l1bIssuer, l1bServer = cert, issuer, rt.AtomString("server")
-	st := rt.Time("signingTime")
+	st := rt.TimeAnyLoc("signingTime")
 	opts := CertCheckStatusOptions{HTTPClient: &http.Client{}, SigningTime: st}
 	var r *result.ServerResult
 	_, panicked := rt.Panics(func() { r = checkStatusFromServer(rt.EnvContext{Tag: "caller"}, cert, issuer, l1bServer, opts) })
